@@ -83,7 +83,7 @@ pub fn op_line(h: &Hist) -> String {
 
 pub fn parse_line(line: &str) -> Option<Hist> {
     let p: Vec<&str> = line.split_whitespace().collect();
-    if p.len() < 3 || p[0] != "dedup" {
+    if p.len() < 3 || (p[0] != "dedup" && p[0] != "dedupf") {
         return None;
     }
     let w: u32 = p[1].parse().ok()?;
@@ -462,6 +462,173 @@ pub fn judge(out: &mut Out, real: &mut Real, h: &Hist, interleaved: bool) {
 }
 
 // ---------------------------------------------------------------------------------------------
+// decode1090's inline copy of the loop (crates/decode1090/src/main.rs), through the built binary
+
+/// Build `decode1090` from the tree under test (own target directory) and return the binary.
+fn decode1090_bin(out: &mut Out) -> Option<String> {
+    static BIN: std::sync::OnceLock<Option<String>> = std::sync::OnceLock::new();
+    let r = BIN.get_or_init(|| {
+        let root = std::env::var("VERIF_ROOT").ok()?;
+        let target = format!("{root}/.build/decode-target");
+        let o = std::process::Command::new("cargo")
+            .args(["build", "--offline", "-p", "decode1090"])
+            .current_dir(format!("{root}/.build/repo"))
+            .env("CARGO_TARGET_DIR", &target)
+            .env_remove("RUSTFLAGS")
+            .output()
+            .ok()?;
+        if !o.status.success() {
+            let e = String::from_utf8_lossy(&o.stderr);
+            eprintln!("decode1090 does not build: {}", &e[e.len().saturating_sub(600)..]);
+            return None;
+        }
+        Some(format!("{target}/debug/decode1090"))
+    });
+    if r.is_none() {
+        out.fail("decode1090-build", "dedupf 0 20001838ca3804+ 0:0:1", "decode1090 could not be built from the tree under test");
+    }
+    r.clone()
+}
+
+/// the abstract semantics with a flush at end of input
+fn spec_flush(h: &Hist) -> Vec<ExpRec> {
+    // a last arrival of a fresh frame, later than every window, closes everything; drop its own record
+    let mut g = h.clone();
+    g.frames.push((vec![0xfe], false));
+    let tmax = h.arrivals.iter().map(|a| ms(a.ts)).max().unwrap_or(0);
+    g.arrivals.push(Arr { ts: ((tmax + h.w as u128 + 1000) / 1000 + 1) as f64, fi: h.frames.len(), rx: vec![] });
+    spec(&g).records
+}
+
+fn judge_file(out: &mut Out, bin: &str, h: &Hist) {
+    let mut line = op_line(h);
+    line.insert(5, 'f'); // dedup -> dedupf
+    let path = format!("{}/d1090.jsonl", out.dir);
+    let mut text = String::new();
+    for a in &h.arrivals {
+        let meta: Vec<serde_json::Value> = a
+            .rx
+            .iter()
+            .map(|(s, id)| serde_json::json!({"system_timestamp": a.ts, "nanoseconds": id, "serial": s}))
+            .collect();
+        text.push_str(&serde_json::json!({"timestamp": a.ts, "frame": hex(&h.frames[a.fi].0), "metadata": meta}).to_string());
+        text.push('\n');
+    }
+    std::fs::write(&path, text).unwrap();
+    let o = std::process::Command::new(bin).args(["-i", &path, "-d", &h.w.to_string()]).output();
+    let Ok(o) = o else {
+        out.fail("decode1090-run", &line, "could not run decode1090");
+        return;
+    };
+    if !o.status.success() {
+        out.case(&line, "panic");
+        out.fail("decode1090-run", &line, &format!("decode1090 exited with {:?}", o.status.code()));
+        return;
+    }
+    let mut got = vec![];
+    for l in String::from_utf8_lossy(&o.stdout).lines() {
+        let Ok(v) = serde_json::from_str::<serde_json::Value>(l) else {
+            out.fail("decode1090-run", &line, &format!("output line is not JSON: {l}"));
+            continue;
+        };
+        let frame = v["frame"].as_str().and_then(unhex).unwrap_or_default();
+        got.push(ExpRec {
+            fi: h.frames.iter().position(|f| f.0 == frame).unwrap_or(usize::MAX),
+            ts_bits: v["timestamp"].as_f64().unwrap_or(f64::NAN).to_bits(),
+            ids: v["metadata"].as_array().map(|m| m.iter().map(|e| e["nanoseconds"].as_u64().unwrap_or(u64::MAX)).collect()).unwrap_or_default(),
+        });
+    }
+    let mut ans = String::from("ok ");
+    for (k, r) in got.iter().enumerate() {
+        if k > 0 {
+            ans.push(';');
+        }
+        let ids: Vec<String> = r.ids.iter().map(|i| i.to_string()).collect();
+        ans.push_str(&format!("{}@{}[{}]", r.fi, ms(f64::from_bits(r.ts_bits)), ids.join(",")));
+    }
+    if got.is_empty() {
+        ans.push('-');
+    }
+    out.case(&line, &ans);
+    // with the flush every reception of a decodable frame is written exactly once …
+    let mut seen = BTreeSet::new();
+    for r in &got {
+        for id in &r.ids {
+            if !seen.insert(*id) {
+                out.fail("file-duplicated", &line, &format!("reception {id} written twice"));
+            }
+        }
+    }
+    for a in &h.arrivals {
+        for (_, id) in &a.rx {
+            if h.frames[a.fi].1 != seen.contains(id) {
+                out.fail(if h.frames[a.fi].1 { "file-lost" } else { "file-invented" }, &line, &format!("reception {id}"));
+            }
+        }
+    }
+    // … in the records the group semantics prescribes
+    let want = spec_flush(h);
+    if got != want {
+        let k = (0..got.len().max(want.len())).find(|&k| got.get(k) != want.get(k)).unwrap();
+        out.fail("file-records", &line, &format!("record {k}: got {:?}, the group semantics gives {:?}", got.get(k), want.get(k)));
+    }
+    out.stat("decode1090:histories");
+}
+
+fn decode1090_stage(out: &mut Out, rng: &mut Rng) {
+    let Some(bin) = decode1090_bin(out) else { return };
+    // time stamps are multiples of 1/8 s below 2^31 s: their decimal form is short and read back exactly
+    let frames: Vec<(Vec<u8>, bool)> = [4usize, 1].iter().map(|&i| pool_frame(i)).collect();
+    let grid = [1.0, 1.25, 1.5, 1.75];
+    for w in [0u32, 250, 500] {
+        for len in 0..=3usize {
+            for code in 0..8usize.pow(len as u32) {
+                let mut c = code;
+                let mut arrivals = vec![];
+                for k in 0..len {
+                    arrivals.push(Arr { ts: grid[(c % 8) / 2], fi: c % 2, rx: vec![((k % 2) as u64, k as u64 + 1)] });
+                    c /= 8;
+                }
+                judge_file(out, &bin, &Hist { w, frames: frames.clone(), arrivals });
+            }
+        }
+    }
+    for _ in 0..1500 {
+        let nf = 1 + rng.below(5) as usize;
+        let first = rng.below((POOL.len() - nf) as u64 + 1) as usize;
+        let frames: Vec<(Vec<u8>, bool)> = (first..first + nf).map(pool_frame).collect();
+        let w = *rng.pick(&[0u32, 125, 250, 400, 1000, 5000]);
+        let base = *rng.pick(&[0.0, 1000.0, 1_700_000_000.0]);
+        let mode = rng.below(3);
+        let mut t = base;
+        let mut id = 0;
+        let mut arrivals = vec![];
+        for _ in 0..rng.below(40) {
+            let ts = match mode {
+                0 => {
+                    t += rng.below(4) as f64 / 8.0;
+                    t
+                }
+                1 => base + rng.below(40) as f64 / 8.0,
+                _ => {
+                    t += 0.125;
+                    (t + rng.range(-8, 8) as f64 / 8.0).max(0.0)
+                }
+            };
+            let rx = (0..[1, 1, 1, 0, 2][rng.below(5) as usize])
+                .map(|_| {
+                    id += 1;
+                    (rng.below(5), id)
+                })
+                .collect();
+            arrivals.push(Arr { ts, fi: rng.below(nf as u64) as usize, rx });
+        }
+        judge_file(out, &bin, &Hist { w, frames, arrivals });
+    }
+    out.exhaustive.push("decode1090 binary: all files of <= 3 lines over (DF4+1 byte, DF4) x {1,1.25,1.5,1.75} s x windows {0,250,500} ms".into());
+}
+
+// ---------------------------------------------------------------------------------------------
 // generators
 
 fn pool_frame(i: usize) -> (Vec<u8>, bool) {
@@ -601,6 +768,14 @@ fn random_history(rng: &mut Rng, long: bool) -> Hist {
 }
 
 pub fn one(out: &mut Out, line: &str) {
+    if line.starts_with("dedupf ") {
+        match (parse_line(line), decode1090_bin(out)) {
+            (Some(h), Some(bin)) => judge_file(out, &bin, &h),
+            (None, _) => out.notes.push(format!("bad replay line: {line}")),
+            _ => {}
+        }
+        return;
+    }
     match parse_line(line) {
         Some(h) => {
             let mut real = Real::new();
@@ -681,5 +856,11 @@ pub fn run(out: &mut Out, rng: &mut Rng, thorough: bool) {
     for k in 0..n {
         let h = random_history(rng, k % 3 == 0);
         judge(out, &mut real, &h, k % 2 == 1);
+    }
+    // --- decode1090's inline copy, through the binary built from the tree under test
+    if thorough {
+        decode1090_stage(out, rng);
+    } else {
+        out.notes.push("decode1090's inline copy of the loop is exercised in the thorough tier only".into());
     }
 }
